@@ -91,6 +91,11 @@ class Target:
         self.faults = kw.pop("faults", "Exception")
         self.note = kw.pop("note", None)
         self.nested = kw.pop("nested", None)
+        self.variant = kw.pop("variant", None)          # second contract on the same function (e.g. under interference)
+        self.local_contracts = list(kw.pop("local_contracts", ()))   # callee contracts that hold for this target only
+        self.display = self.qualname + ("[%s]" % self.variant if self.variant else "")
+        if self.variant:
+            self.ref = self.ref + "[%s]" % self.variant
         self.extra = kw
         if kw:
             raise TypeError("unknown target options: %s" % ", ".join(kw))
@@ -144,6 +149,8 @@ class Spec:
         self.classes = {}
         self.ghosts = {}
         self.contracts = []
+        self.local_contracts = []
+        self.instances = {}
         self.targets = []
         self.folds = []
         self.seq_lemmas = []
@@ -171,9 +178,12 @@ class Spec:
         def ghost(**kw):
             sp.ghosts.update(kw)
 
-        def assumed(key, **kw):
+        def assumed(key, local=False, **kw):
             c = Contract(key, "assumed", **kw)
-            sp.contracts.append(c)
+            if local:
+                sp.local_contracts.append(c)
+            else:
+                sp.contracts.append(c)
             return c
 
         def verified(key, **kw):
@@ -243,6 +253,11 @@ class Spec:
 
         def exceptions(**parents):
             sp.exc_parents.update(parents)
+
+        def instance_of(sort, *classes):
+            """Values of the opaque sort are instances of the named classes (isinstance answers True)."""
+            sp.instances.setdefault(sort.oname, set()).update(classes)
+            sp.assumptions.append("values of sort %s are instances of %s" % (sort.oname, ", ".join(classes)))
 
         def attr_sort(name, sort):
             sp.attr_sorts[name] = sort
@@ -322,7 +337,7 @@ class Spec:
 
         ns = dict(cls=cls, ghost=ghost, assumed=assumed, verified=verified, target=target, loop=loop,
                   fold_sum=fold_sum, fold_all=fold_all, fold_cat=fold_cat, use_rev=use_rev, fold_unit=fold_unit, rev_hints=rev_hints, attr=attr, seq_lemma=seq_lemma, lemma=lemma,
-                  exceptions=exceptions, attr_sort=attr_sort, const=const, assume_note=assume_note,
+                  exceptions=exceptions, attr_sort=attr_sort, instance_of=instance_of, const=const, assume_note=assume_note,
                   undecided=undecided, pure=pure, ufunc=ufunc, forall=forall, exists=exists,
                   extra_check=extra_check, census=census, include=include, rx=re.compile, SPEC=sp)
         for k in ("INT BOOL STR BYTES NONE ANY Seq Tup Opt SetS MapS Opaque Enum Obj V If And Or Not Implies "
